@@ -126,6 +126,70 @@ def case_bins(run, i):
                  sample={"baits": baits[:5], "access": access[:4] if access else None, "avg": avg, "min": mn} if i % 67 == 0 else None)
 
 
-WORKLOADS = {"bins": (_n, case_bins)}
-_Q = {"target.do_target|held": 800, "antitarget.do_antitarget|held": 150, "GenomicArray.subtract|held": 100, "GenomicArray.subdivide|held": 300}
+def _n_cli(tier):
+    return 24 if tier == "quick" else 200
+
+
+def _bed_rows(path):
+    with open(path) as fh:
+        return [(f[0], int(f[1]), int(f[2]), f[3] if len(f) > 3 else None) for f in (line.rstrip("\n").split("\t") for line in fh if line.strip())]
+
+
+def case_cli(run, i):
+    """`cnvkit.py target` / `antitarget` on written BED files: --split / -a / --short-names / --annotate and -g / -a / -m reach the
+    functions unchanged, with the tables the files hold, and the BED written is the table returned."""
+    import shutil
+    import cnvlib.target as T
+    import cnvlib.antitarget as A
+    from ..monitors import cli_plumb
+    rng = run.rng("cli", i)
+    pre = "chr" if i % 2 else ""
+    tchroms = [pre + x for x in ("1", "2", "X")][: int(rng.integers(1, 4))]
+    baits = _baits(rng, tchroms, int(rng.choice([2000, 50000])))
+    d = os.path.join(run.workdir, f"cli12_{run.shard}_{i}")
+    os.makedirs(d, exist_ok=True)
+    pbait, ptgt, pacc, panti = (os.path.join(d, f) for f in ("baits.bed", "targets.bed", "access.bed", "anti.bed"))
+    with open(pbait, "w") as fh:
+        fh.write(F.to_bed([b + ("g%d" % k,) for k, b in enumerate(baits)], 4))
+    split, short = bool(i % 2), bool((i // 2) % 2)
+    avg = int(rng.choice([100, 267, 1000]))
+    argv = ["target", pbait, "-o", ptgt, "-a", str(avg)] + (["--split"] if split else []) + (["--short-names"] if short else [])
+    run.begin_case("cli", i, cls="cli:target+antitarget", argv=argv[2:])
+    r = cli_plumb.check_cli(run, rt, T, "do_target", argv, dict(annotate=None, do_short_names=short, do_split=split, avg_size=avg), "target")
+    if r is not None:
+        got, res, wit = r
+        if len(got["bait_arr"]) != len(baits):
+            run.violate("cli.target[plumbing]", "target-cli-passes-wrong-table", f"{len(got['bait_arr'])} baits reached do_target, the file holds {len(baits)}", wit)
+        elif not isinstance(res, Exception):
+            want = list(zip(res.data["chromosome"], res.data["start"], res.data["end"], res.data["gene"]))
+            if _bed_rows(ptgt) != [(c, int(s_), int(e), g) for c, s_, e, g in want]:
+                run.violate("cli.target[plumbing]", "target-cli-file-differs-from-result", "the BED written is not the table do_target returned", wit)
+            else:
+                cli_plumb.held(run, "target", "cli-target")
+    if os.path.exists(ptgt):
+        top = {c: max(b[2] for b in baits if b[0] == c) + 300000 for c in tchroms}
+        with open(pacc, "w") as fh:
+            for c in tchroms:
+                fh.write(f"{c}\t0\t{top[c]}\n")
+        aavg, amin = int(rng.choice([20000, 50000])), [None, 1000, 5000][i % 3]
+        use_acc = bool(i % 4)
+        argv = ["antitarget", ptgt, "-o", panti, "-a", str(aavg)] + (["-m", str(amin)] if amin else []) + (["-g", pacc] if use_acc else [])
+        r = cli_plumb.check_cli(run, rt, A, "do_antitarget", argv, dict(avg_bin_size=aavg, min_bin_size=amin, access=use_acc), "antitarget", truthy=("access",))
+        if r is not None:
+            got, res, wit = r
+            ntgt = len(_bed_rows(ptgt))
+            if len(got["targets"]) != ntgt or (use_acc and len(got["access"]) != len(tchroms)):
+                run.violate("cli.antitarget[plumbing]", "antitarget-cli-passes-wrong-table", "the tables reaching do_antitarget are not the files' tables", wit)
+            elif not isinstance(res, Exception):
+                want = [(c, int(s_), int(e), g) for c, s_, e, g in zip(res.data["chromosome"], res.data["start"], res.data["end"], res.data["gene"])]
+                if _bed_rows(panti) != want:
+                    run.violate("cli.antitarget[plumbing]", "antitarget-cli-file-differs-from-result", "the BED written is not the table do_antitarget returned", wit)
+                else:
+                    cli_plumb.held(run, "antitarget", "cli-antitarget")
+    shutil.rmtree(d, ignore_errors=True)
+    run.end_case(fp=rt.fingerprint([baits, i], 12), nontrivial=True)
+
+
+WORKLOADS = {"bins": (_n, case_bins), "cli": (_n_cli, case_cli)}
+_Q = {"cli.target[plumbing]|held": 15, "cli.antitarget[plumbing]|held": 15, "target.do_target|held": 800, "antitarget.do_antitarget|held": 150, "GenomicArray.subtract|held": 100, "GenomicArray.subdivide|held": 300}
 QUOTAS = {"quick": _Q, "thorough": _Q}
